@@ -104,5 +104,5 @@ parse:
     if (d->call_parse_frame) parseFrame(recvBuffer, vf_ctx(d->iface));
 
     /* :396 Run periodic automata tick after handling frame */
-    dw_tick(d);
+    if (!d->defer_tick) dw_tick(d);
 }
